@@ -139,7 +139,7 @@ class NodeAssign:
     def __init__(self, identifier, expression, pos):
         if identifier.startswith("checkerlang_"):
             raise CklSyntaxError(
-                f"Cannot assign to system variable {identifier}", self.pos
+                f"Cannot assign to system variable {identifier}", pos
             )
         self.identifier = identifier
         self.expression = expression
@@ -167,7 +167,7 @@ class NodeAssignDestructuring:
         for identifier in identifiers:
             if identifier.startswith("checkerlang_"):
                 raise CklSyntaxError(
-                    f"Cannot assign to system variable {identifier}", self.pos
+                    f"Cannot assign to system variable {identifier}", pos
                 )
         self.identifiers = identifiers
         self.expression = expression
